@@ -336,14 +336,20 @@ func mutexLock(i *interpreter, fr *frame, fn *ssa.Function, args []value) value 
 	if p == nil {
 		nilDeref()
 	}
-	if i.w.held[p] {
-		if strings.Contains(fn.String(), "RLock") {
-			// recursive read lock: allowed by the model (can deadlock with a writer; not modelled)
-		} else {
+	reader := strings.Contains(fn.String(), "RLock")
+	for i.w.held[p] {
+		if i.w.heldBy[p] == i.curG {
+			if reader {
+				break // recursive read lock: allowed by the model (can deadlock with a writer; not modelled)
+			}
 			panic(blockEvent{"self-deadlock: Lock of a mutex this goroutine already holds", nil})
+		}
+		if !i.yield() {
+			panic(blockEvent{"deadlock: mutex held by a goroutine that cannot run", nil})
 		}
 	}
 	i.w.held[p] = true
+	i.w.heldBy[p] = i.curG
 	return nil
 }
 
@@ -353,6 +359,7 @@ func mutexTryLock(i *interpreter, fr *frame, fn *ssa.Function, args []value) val
 		return false
 	}
 	i.w.held[p] = true
+	i.w.heldBy[p] = i.curG
 	return true
 }
 
@@ -365,6 +372,8 @@ func mutexUnlock(i *interpreter, fr *frame, fn *ssa.Function, args []value) valu
 		panic(runtimePanic{"sync: unlock of unlocked mutex"})
 	}
 	delete(i.w.held, p)
+	delete(i.w.heldBy, p)
+	i.progress++
 	return nil
 }
 
